@@ -30,7 +30,8 @@ ASSUMPTIONS = [
 @st.composite
 def cases(draw, name, max_len):
     case = draw(base_case(name, max_len=max_len))
-    case["srcs"][0]["fl"] = draw(st.sampled_from(["list", "iter", "agen"]))
+    for src in case["srcs"]:
+        src["fl"] = draw(st.sampled_from(["list", "iter", "agen"]))
     for spec in case["fns"].values():
         spec["fl"] = draw(st.sampled_from(["def", "async"]))
     return case
@@ -64,12 +65,13 @@ def check(case):
             fresh, now = sig(mat(vdesc)), sig(ba.V[name])
         if fresh != now:
             raise Violation(f"C02/{tool}/mutated-{name}", f"before={fresh} after={now}")
-    src = ba.srcs[0]
-    if case["srcs"][0]["fl"] == "list":
+    src = ba.srcs[0] if ba.srcs else None
+    if src is not None and case["srcs"][0]["fl"] == "list":
         fresh, now = sig(mats(case["srcs"][0]["items"])), sig(src.obj)
         if fresh != now:
             raise Violation(f"C02/{tool}/mutated-input", f"before={fresh} after={now}")
-    if "default" in ba.V and "key" in ba.fns and not any(ba.V["default"] is x for x in src.items):
+    if src is not None and "default" in ba.V and "key" in ba.fns \
+            and not any(ba.V["default"] is x for x in src.items):
         # (identity is only meaningful if the default object is not itself an input item,
         #  e.g. the None singleton may legitimately be both)
         default = ba.V["default"]
@@ -100,7 +102,7 @@ def nontrivial(case):
 
 def classify(case):
     f = features(case)
-    out = [f"input-{case['srcs'][0]['fl']}"]
+    out = [f"input-{case['srcs'][0]['fl']}"] if case["srcs"] else ["input-omitted"]
     if f["tie"]:
         out.append("tie")
     if f["max_len"] == 0:
